@@ -121,6 +121,23 @@ func ruleC05_1(c *Ctx) {
 			}
 		}
 		for lvl, fr := range frames {
+			// maps.Copy(inspection links, reduced links) is the same merge
+			for _, mc := range allCalls(fr) {
+				if genericBase(calleeName(mc)) != "maps.Copy" || len(mc.Common().Args) != 2 {
+					continue
+				}
+				dp, di := producer(mc.Common().Args[0], mc)
+				if dp == nil || calleeName(dp) != "in_toto.RunInspections" || di != 0 || !c.okCallAt(dp, mc.Block()) {
+					continue
+				}
+				sv, sat := ssa.Value(mc.Common().Args[1]), ssa.Instruction(mc)
+				if lvl > 0 {
+					sv, sat = inspVA.mapUp(sv, sat, lvl)
+				}
+				if n, i := c.deepProducer(sv, sat); n == "in_toto.ReduceStepsMetadata" && i == 0 {
+					merged = true
+				}
+			}
 			for _, b := range fr.Blocks {
 				for _, in := range b.Instrs {
 					mu, ok := in.(*ssa.MapUpdate)
